@@ -62,8 +62,10 @@ if keep and res.get('confirmed'):
     dst = os.path.join(V, 'seeded', mid)
     os.makedirs(dst, exist_ok=True)
     for f in ('patch.diff', 'demo.py'):
-        shutil.copy(os.path.join(d, f), dst)
-    meta['confirmed_by_lead'] = {k: res.get(k) for k in ('demo_clean_rc', 'demo_patched_rc', 'tests')}
+        if os.path.abspath(d) != os.path.abspath(dst):
+            shutil.copy(os.path.join(d, f), dst)
+    if not skip_confirm or 'confirmed_by_lead' not in meta:
+        meta['confirmed_by_lead'] = {k: res.get(k) for k in ('demo_clean_rc', 'demo_patched_rc', 'tests')}
     meta['check_result'] = {'caught': res['caught'], 'runs': res['check'], 'tier': tier}
     json.dump(meta, open(os.path.join(dst, 'meta.json'), 'w'), indent=1)
     print('kept in', dst)
